@@ -93,6 +93,7 @@ func commonClasses(c *dbm.Case, st *dbm.Stats) []string {
 	add(st.SeekComp > 0, "seek-compaction")
 	add(st.Reopens > 0, "reopen")
 	add(st.Recovers > 0, "recover")
+	add(st.SizeOfs > 0, "sizeof")
 	add(st.Compacts > 0, "manual-compaction")
 	add(st.DelBeforeCompact, "delete-then-compaction")
 	add(st.DeepestLevel >= 2, "level>=2")
